@@ -281,6 +281,8 @@ def classes():
                     ctx["t1"] = torch.full((2,), idx + 1, dtype=torch.long)
             if f["t"] == "sc":
                 return int(v[0])
+            if f["t"] == "dc":
+                return {"m": int(v[0])}
             if f["t"] == "t0":
                 return torch.tensor(int(v[0]), dtype=torch.long)
             t = torch.tensor(v, dtype=torch.long)
@@ -412,15 +414,19 @@ def record_pad(fields, lens, vals, style, entry):
     samples = [mw[i] for i in range(B)]
     skeys, svals = sample_ctx_desc(samples, sctx)
     cfg = dict(fields=[dict(t=f["t"], tail=list(f["tail"])) for f in fields], B=B, len=lens, vals=vals, style=style,
-               entry=entry, skeys=skeys, svals=svals)
+               entry=("wrapper" if entry == "wrapper2" else entry), variant=entry, skeys=skeys, svals=svals)
 
     def build_and_call():
         if entry == "compose":
             col = KDComposeCollator([PadSequencesCollator()], dataset_mode=mode, return_ctx=rc)
         elif entry == "single":
             col = PadSequencesCollator(dataset_mode=mode, return_ctx=rc)
-        else:
+        elif entry == "wrapper":
             col = KDSingleCollatorWrapper(PadSequencesCollator(), dataset_mode=mode, return_ctx=rc)
+        else:
+            # the wrapped collator was built with a configuration of its own: the wrapper's configuration counts
+            col = KDSingleCollatorWrapper(PadSequencesCollator(dataset_mode="f1", return_ctx=not rc), dataset_mode=mode,
+                                          return_ctx=rc)
         return col(samples)
 
     kind, val = guarded(build_and_call)
@@ -439,6 +445,8 @@ def project_pad_result(val, B):
     data = val[0] if pair else val
 
     def field(x):
+        if isinstance(x, dict) and set(x) == {"m"}:
+            x = x["m"]  # a default-collated dict item: {"m": tensor of the per-sample values}
         if torch.is_tensor(x) and x.ndim >= 1:
             return dict(dims=list(x.shape), rows=[int_list(x[b]) for b in range(x.shape[0])])
         return dict(dims=[], rows=[])
@@ -456,7 +464,10 @@ KINDS = [dict(t="seq", tail=[]), dict(t="seq", tail=[2]), dict(t="sc", tail=[]),
 
 
 def width(f):
-    return f["tail"][0] if f["tail"] else 1
+    w = 1
+    for d in f["tail"]:
+        w *= d
+    return w
 
 
 def make_vals(fields, lens, r):
@@ -489,10 +500,14 @@ def pad_cases(tier, r):
         r.shuffle(cases)
         cases = cases[:3000]
     big = [dict(t="seq", tail=[]), dict(t="seq", tail=[]), dict(t="seq", tail=[2]), dict(t="seq", tail=[3]),
-           dict(t="sc", tail=[]), dict(t="t0", tail=[])]
+           dict(t="seq", tail=[2, 2]), dict(t="seq", tail=[1, 3]),   # image-like sequence elements (>= 3 dims)
+           dict(t="sc", tail=[]), dict(t="t0", tail=[]), dict(t="dc", tail=[])]   # dc: a dict-valued item
     for _ in range(1200 if quick else 12000):
         K = r.randint(1, 4)
         fs = [dict(r.choice(big)) for _ in range(K)]
+        if K == 2 and fs[1]["t"] == "dc":
+            # a two-item batch ending in a dict cannot be told from (batch, ctx) by any observer
+            fs = [fs[1], fs[0]] if fs[0]["t"] != "dc" else [fs[0], dict(t="sc", tail=[])]
         B = r.randint(1, 6)
         lens = [[1] * K for _ in range(B)]
         for k, f in enumerate(fs):
@@ -501,13 +516,14 @@ def pad_cases(tier, r):
                 L = r.randint(1, 9)
                 for b in range(B):
                     lens[b][k] = L if fixed else r.randint(0 if r.random() < 0.15 else 1, 9)
-        cases.append((fs, lens, r.choice(["plain", "ctx", "raw"]), r.choice(["compose", "compose", "single", "wrapper"])))
+        cases.append((fs, lens, r.choice(["plain", "ctx", "raw"]),
+                      r.choice(["compose", "compose", "single", "wrapper", "wrapper2"])))
     return cases
 
 
 def pad_key(cfg):
-    fs = ",".join(f["t"] + ("x%d" % f["tail"][0] if f["tail"] else "") for f in cfg["fields"])
-    return f"pad:{cfg['entry']}:{cfg['style']}:fields={fs}"
+    fs = ",".join(f["t"] + ("x" + "x".join(map(str, f["tail"])) if f["tail"] else "") for f in cfg["fields"])
+    return f"pad:{cfg.get('variant', cfg['entry'])}:{cfg['style']}:fields={fs}"
 
 
 # ---------------------------------------------------------------- TLC side
